@@ -92,11 +92,11 @@ NumAtEnd(st) == st \in {"Lead", "Float", "Exp"}
 (* White space and comments: lexer.next / lexer.skipComment.                *)
 
 RECURSIVE SkipComment(_, _)
-\* offset of the line end that stops the comment, or -1 when the text ends in it
-\* (peek() = 0: the end of the text, or a NUL byte)
+\* offset of the line end that stops the comment; when the text ends in the comment (peek() = 0:
+\* the end of the text, or a NUL byte) the negative number -(o + 1), o = the offset reached
 SkipComment(src, off) ==
   LET ch == Byte(src, off) IN
-  IF ch = 0 THEN -1
+  IF ch = 0 THEN 0 - (off + 1)
   ELSE IF ch = 92 THEN
     LET c2 == Byte(src, off + 1) IN
     IF c2 \in {92, 10} THEN SkipComment(src, off + 2)
@@ -106,12 +106,13 @@ SkipComment(src, off) ==
   ELSE SkipComment(src, off + 1)
 
 RECURSIVE NextByte(_, _)
-\* offset of the first byte of the next token, -1 at the end.  Precondition off < Len(src).
+\* offset of the first byte of the next token; at the end of the text -(o + 1), o = the final offset.
+\* Precondition off < Len(src).
 NextByte(src, off) ==
   LET ch == Byte(src, off) IN
-  IF ch = 35 THEN (LET o == SkipComment(src, off + 1) IN IF o < 0 THEN -1 ELSE NextByte(src, o))
+  IF ch = 35 THEN (LET o == SkipComment(src, off + 1) IN IF o < 0 THEN o ELSE NextByte(src, o))
   ELSE IF ~IsWhite(ch) THEN off
-  ELSE IF off + 1 = Len(src) THEN -1
+  ELSE IF off + 1 = Len(src) THEN 0 - (off + 2)
   ELSE NextByte(src, off + 1)
 
 ----------------------------------------------------------------------------
@@ -290,14 +291,17 @@ LexNormal(src, p) ==
               IF ch >= 128 THEN Tok(src, "c", "other", p, p + DecodeRune(src, p, Len(src)).n) ELSE Chr
 
 ----------------------------------------------------------------------------
-(* The token sequence of a text.  It stops after the first lexical error     *)
-(* token (the parser cannot continue past it) and at the end of the text /  *)
-(* a NUL byte outside a string literal (Lex returns a value <= 0, which the  *)
-(* generated parser takes for the end marker).                              *)
+(* The token sequence of a text, closed by an eof token.  It stops after    *)
+(* the first lexical error token (the parser cannot continue past it), at   *)
+(* the end of the text, and at a NUL byte outside a string literal (Lex     *)
+(* returns 0 there, which the generated parser takes for its end marker;    *)
+(* x = "nul" keeps the difference visible, it only shows in error texts).   *)
+
+EofAt(off, x) == [t |-> "eof", x |-> x, s |-> <<>>, v |-> <<>>, b |-> off, e |-> off]
 
 RECURSIVE LexAll(_, _, _, _, _)
 LexAll(src, off, inStr, depths, acc) ==
-  IF off >= Len(src) THEN acc
+  IF off >= Len(src) THEN Append(acc, EofAt(Len(src), ""))
   ELSE IF inStr THEN
     LET tk == StrTok(src, ScanStr(src, off, off, TRUE, off)) IN
     CASE tk.t = "strquery" -> LexAll(src, tk.e, FALSE, <<0>> \o depths, Append(acc, tk))
@@ -306,10 +310,10 @@ LexAll(src, off, inStr, depths, acc) ==
       [] OTHER -> Append(acc, tk)
   ELSE
     LET p == NextByte(src, off) IN
-    IF p < 0 THEN acc
+    IF p < 0 THEN Append(acc, EofAt(0 - p - 1, ""))
     ELSE
       LET tk == LexNormal(src, p) IN
-      IF tk.t = "eof" THEN acc
+      IF tk.t = "eof" THEN Append(acc, EofAt(p + 1, "nul"))
       ELSE IF IsLexError(tk) THEN Append(acc, tk)
       ELSE IF tk.t = "strstart" THEN LexAll(src, tk.e, TRUE, depths, Append(acc, tk))
       ELSE IF tk.t = "c" /\ tk.x = "(" /\ depths # <<>> THEN
